@@ -8,9 +8,12 @@ LEVEL = "model_checking"
 def run(tier, rep, work):
     d = C.stage_specs(work.sub("tla"))
     quick = tier == "quick"
-    storefam.model_check(rep, d, "StoreIdeal", "intended design (no deviation): AckedVisible NoZombie NoPhantom NoReuse NoOverwrite over every interleaving of client, flusher, compactor, eviction, crash, reopen; 2 docs, 1-doc memtables")
-    storefam.model_check(rep, d, "StoreAsIs", "the code's deviation flags (shared templates, no merge, unguarded swap): every loss / resurrection is accounted for by the ghosts lost / leaked")
-    storefam.model_check(rep, d, "StoreLive", "liveness under (weak / strong) fairness of the worker steps, no state constraint: a requested background flush is served, a started flusher and a started search terminate")
+    nocrash = dict(MaxCrash=0) if quick else None
+    storefam.model_check(rep, d, "StoreIdeal", "intended design (no deviation): AckedVisible NoZombie NoPhantom NoReuse NoOverwrite over every interleaving of client, two flushers (caller of Flush and background worker), "
+                         "compactor, eviction, crash, reopen; 2 docs, 1-doc memtables", override=nocrash)
+    storefam.model_check(rep, d, "StoreAsIs", "the code's deviation flags (shared templates, no merge, unguarded swap): every loss / resurrection is accounted for by the ghosts lost / leaked", override=nocrash)
+    if not quick:
+        storefam.model_check(rep, d, "StoreLive", "liveness under weak fairness of the worker steps, no state constraint: a requested background flush is served, started flushers and searches terminate")
     exe = C.build_harness()
     n = 40 if quick else 400
     storefam.run_store(rep, work, d, exe, "C08", tier, "memcap1/compact2", 0, n, memcap=1, compactn=2, seed=0)
